@@ -47,6 +47,73 @@ fn pid(toks: &[&str], out: &mut Vec<String>) -> R<()> {
     drive::<f32, f32, _>(&mut s, &input, events, out);
     Ok(())
 }
+/// `ss spid`: the PID controller assembled from the crate's own streams, wired as in `examples/pid.rs`
+/// (TimeGetterFromGetter over the input, ConstantGetters for setpoint and gains, Difference -> Integral / Derivative ->
+/// NoneToValue(0) -> Product with the gain -> QuantityToFloat -> Sum of the three). Every stateful node is updated on
+/// every round (the example's `?` chain would stop at the first error); the first error is returned.
+fn spid(toks: &[&str], out: &mut Vec<String>) -> R<()> {
+    want_min(toks, 6)?;
+    type DQ = dyn Getter<Quantity, E>;
+    let sp = Quantity::new(p_f32(toks[2])?, MILLIMETER);
+    let kp = Quantity::dimensionless(p_f32(toks[3])?);
+    let ki = Quantity::dimensionless(p_f32(toks[4])?);
+    let kd = Quantity::dimensionless(p_f32(toks[5])?);
+    let events = p_events::<Quantity>(&toks[6..])?;
+    let input_s = mk::<Quantity>(Ok(None));
+    let input: Reference<DQ> = as_dyn(&input_s);
+    let time_getter = rc_ref_cell_reference(TimeGetterFromGetter::<Quantity, DQ, E>::new(input.clone()));
+    let setpoint = rc_ref_cell_reference(ConstantGetter::new(time_getter.clone(), sp));
+    let kp = rc_ref_cell_reference(ConstantGetter::new(time_getter.clone(), kp));
+    let ki = rc_ref_cell_reference(ConstantGetter::new(time_getter.clone(), ki));
+    let kd = rc_ref_cell_reference(ConstantGetter::new(time_getter.clone(), kd));
+    let error = rc_ref_cell_reference(DifferenceStream::new(setpoint.clone(), input.clone()));
+    let int = rc_ref_cell_reference(IntegralStream::new(error.clone()));
+    let drv = rc_ref_cell_reference(DerivativeStream::new(error.clone()));
+    let int_zeroer = rc_ref_cell_reference(NoneToValue::new(
+        int.clone(),
+        time_getter.clone(),
+        Quantity::new(0.0, MILLIMETER),
+    ));
+    let drv_zeroer = rc_ref_cell_reference(NoneToValue::new(
+        drv.clone(),
+        time_getter.clone(),
+        Quantity::new(0.0, MILLIMETER),
+    ));
+    let kp_mul = rc_ref_cell_reference(ProductStream::new([
+        to_dyn!(Getter<Quantity, E>, kp.clone()),
+        to_dyn!(Getter<Quantity, E>, error.clone()),
+    ]));
+    let pro_f = rc_ref_cell_reference(QuantityToFloat::new(kp_mul));
+    let ki_mul = rc_ref_cell_reference(ProductStream::new([
+        to_dyn!(Getter<Quantity, E>, ki.clone()),
+        to_dyn!(Getter<Quantity, E>, int_zeroer.clone()),
+    ]));
+    let int_f = rc_ref_cell_reference(QuantityToFloat::new(ki_mul));
+    let kd_mul = rc_ref_cell_reference(ProductStream::new([
+        to_dyn!(Getter<Quantity, E>, kd.clone()),
+        to_dyn!(Getter<Quantity, E>, drv_zeroer.clone()),
+    ]));
+    let drv_f = rc_ref_cell_reference(QuantityToFloat::new(kd_mul));
+    let output = SumStream::new([
+        to_dyn!(Getter<f32, E>, pro_f.clone()),
+        to_dyn!(Getter<f32, E>, int_f.clone()),
+        to_dyn!(Getter<f32, E>, drv_f.clone()),
+    ]);
+    for ev in events {
+        set(&input_s, ev);
+        // one statement per update: the `BorrowMut` temporaries must be dropped before the next node reads this one
+        let r1 = int.borrow_mut().update();
+        let r2 = drv.borrow_mut().update();
+        let r3 = pro_f.borrow_mut().update();
+        let r4 = int_f.borrow_mut().update();
+        let r5 = drv_f.borrow_mut().update();
+        let rets = [r1, r2, r3, r4, r5];
+        let ret: NothingOrError<E> = rets.iter().cloned().find(|r| r.is_err()).unwrap_or(Ok(()));
+        let got = get2::<f32, _>(&output);
+        out.push(format!("{}/{}", ret.enc(), got));
+    }
+    Ok(())
+}
 fn ewma(toks: &[&str], out: &mut Vec<String>) -> R<()> {
     want_min(toks, 4)?;
     if !matches!(toks[2], "f" | "q") {
@@ -216,6 +283,7 @@ pub fn run(toks: &[&str], out: &mut Vec<String>) -> R<()> {
     let op = toks.get(1).copied().ok_or(NoImpl)?;
     match op {
         "pid" => pid(toks, out),
+        "spid" => spid(toks, out),
         "ewma" => ewma(toks, out),
         "ma" => ma(toks, out),
         "int" | "drv" | "a2s" | "v2s" | "p2s" | "q2f" => q_in(op, toks, out),
